@@ -914,24 +914,21 @@ class ExecutionController:
                 # Already done, no need to think more.
                 return
 
-            if stmt_id in self.plan_id_set:
-                # Already in plan, no need to think more.
-                return
-
             if stmt_id in early_plan:
                 return
 
             for dep_id in stmt.depends_on:
                 add_with_deps(id_to_stmt[dep_id])
 
-            assert stmt_id not in self.plan_id_set
-
             early_plan.append(stmt_id)
 
         for stmt_id in execute_ids:
             add_with_deps(id_to_stmt[stmt_id])
 
-        self.plan = early_plan + self.plan
+        # Statements that were already planned move to the front along with
+        # the requested ones, so that nothing runs before its dependencies.
+        self.plan = early_plan + [
+                stmt_id for stmt_id in self.plan if stmt_id not in early_plan]
         self.plan_id_set.update(early_plan)
 
     def __call__(self, phase, target):
